@@ -204,8 +204,18 @@ def _oracle(case):
             Ffull = R.reference(dict(case, e=dict(case["e"], full=True)))[1]
             okE, msg = _close(EJJ, Ffull, 1e-8)
             if not okE:
-                return (f"data expectation of JᴴJ of the transformation differs from the Fisher metric: {msg}",
-                        sig(case, "expected-pullback", cplx=bool(case["e"]["cplx"])))
+                # characterise the deviation so that a known finding matches this one only: uniform factor on the
+                # inverse-covariance block, everything else equal
+                nb = G.npix(case["dom"])
+                D = np.array(EJJ, float)
+                ratio = np.diag(D)[-nb:] / np.diag(Ffull)[-nb:]
+                D2 = D.copy()
+                D2[-nb:, -nb:] = Ffull[-nb:, -nb:] + (D[-nb:, -nb:] - np.diag(np.diag(D)[-nb:]))
+                rest_ok = _close(D2, Ffull, 1e-8)[0]
+                uniform = bool(np.max(np.abs(ratio - ratio[0])) < 1e-8)
+                tag = ("icov-block-times-%.4f" % ratio[0]) if (rest_ok and uniform) else "other"
+                return (f"data expectation of JᴴJ of the transformation differs from the Fisher metric ({tag}): {msg}",
+                        sig(case, "expected-pullback", cplx=bool(case["e"]["cplx"]), deviation=tag))
     else:
         # StandardHamiltonian metric = likelihood metric + identity
         inner = dict(case, e=case["e"]["e"])
